@@ -232,7 +232,85 @@ def r08b(ctx, rep):
     rep.floor('R08b', 'rollback bodies that load a checkpoint', n, 1)
 
 
+def r08d(ctx, rep):
+    rep.rule('R08d', 'a checkpoint survives being rolled back to: the store a QueryRouter function hands to CheckpointManager::rollback '
+                     '(the store that is cleared and refilled from the image) is not the store its BlobStore — where the checkpoint '
+                     'artifacts are kept — was built over. The image of a checkpoint is taken before its own artifact is written, so '
+                     'restoring it into the store that holds the artifacts removes that checkpoint and every newer one: a retained '
+                     'checkpoint can be rolled back to once. Decided by provenance (both store values are the result of the same accessor '
+                     'on the same router field); where the stores are the same, CheckpointManager::rollback must load checkpoints before '
+                     'TensorStore::restore_from_bytes and reach CheckpointStorage::store after its Ok edge (it writes back what the '
+                     'restore removed)')
+    cr = ctx.crate('query_router')
+    QR = 'query_router::QueryRouter'
+    # where the blob store's backing store comes from
+    blob_src = set()
+    for name, f in sorted(cr.fns.items()):
+        if not name.startswith(QR + '::'):
+            continue
+        for c in A.calls_to(f, ('re', r'BlobStore::new$')):
+            owner = cr.fns.get(A.parent_fn(name), f)
+            for g in A.with_closures(cr.fns, owner.name):
+                gd = A.Defs(g)
+                for sc in A.calls(g):
+                    if re.search(r'(VectorEngine|RelationalEngine|GraphEngine)::store$', sc.resolved) and sc.args and sc.args[0][0] != 'k':
+                        fs, _ = A.origin_fields(g, sc.args[0][1][0], gd)
+                        fs = A.place_fields(sc.args[0][1]) + fs
+                        for x in fs:
+                            if x.startswith(QR + '.'):
+                                blob_src.add((sc.resolved, x))
+    rep.floor('R08d', 'BlobStore construction sites with a recognised backing store', len(blob_src), 1)
+    # does rollback itself carry the artifacts across the restore?  (loaded before restore_from_bytes, stored again after it)
+    carries = None
+    cp = ctx.crate('tensor_checkpoint')
+    for g in A.with_closures(cp.fns, 'tensor_checkpoint::CheckpointManager::rollback'):
+        rest = A.calls_to(g, ('re', r'TensorStore::restore_from_bytes$'))
+        if not rest:
+            continue
+        uses = A.Uses(g)
+        oke = [t for r_ in rest for (_, t) in A.call_outcome(g, r_, uses).ok] or [r_.target for r_ in rest]
+        after = A.reachable(g, oke)
+        before = A.reachable(g, [0], cut_blocks={r_.bb for r_ in rest})
+        st = [c for c in A.calls_to(g, ('re', r'CheckpointStorage::store$')) if c.bb in after]
+        ld = [c for c in A.calls_to(g, ('re', r'CheckpointStorage::load$')) if c.bb in before]
+        if st and ld:
+            carries = '%d load(s) before, store at %s' % (len(ld), g.loc(st[0].line))
+    n = 0
+    owners = sorted({A.parent_fn(name) for name, f in cr.fns.items() if name.startswith(QR + '::') and A.calls_to(f, ('re', r'CheckpointManager::rollback$'))})
+    for on in owners:
+        owner = cr.fns.get(on)
+        if owner is None:
+            continue
+        n += 1
+        rep.analysed(owner)
+        src = set()
+        for g in A.with_closures(cr.fns, on):
+            gd = A.Defs(g)
+            for sc in A.calls(g):
+                if re.search(r'(VectorEngine|RelationalEngine|GraphEngine)::store$', sc.resolved) and sc.args and sc.args[0][0] != 'k':
+                    fs, _ = A.origin_fields(g, sc.args[0][1][0], gd)
+                    fs = A.place_fields(sc.args[0][1]) + fs
+                    for x in fs:
+                        if x.startswith(QR + '.'):
+                            src.add((sc.resolved, x))
+        same = sorted(src & blob_src)
+        if same and carries:
+            rep.holds('R08d', owner, 'rollback store', 'same store, and CheckpointManager::rollback writes the checkpoints back after the restore (%s)' % carries)
+        elif same:
+            rep.violation('R08d', owner, 'checkpoints-in-rolled-back-store', owner.loc(),
+                          'the store rolled back (%s of %s) is the store the blob store keeps the checkpoint artifacts in: ROLLBACK TO removes '
+                          'the target checkpoint and every newer one from the list' % (lib.short(same[0][0]), same[0][1].split('.')[-1]))
+        elif not src:
+            rep.unresolved_instance('R08d', owner, 'rollback store', 'the store handed to rollback was not traced to a router field')
+        else:
+            rep.holds('R08d', owner, 'rollback store', 'rolled-back store and artifact store differ')
+    rep.floor('R08d', 'router functions that call CheckpointManager::rollback', n, 2)
+
+
 def run(ctx, rep):
     r08a(ctx, rep)
     r08b(ctx, rep)
     r08c(ctx, rep)
+    r08d(ctx, rep)
+    import c07
+    c07.r07g(ctx, rep, ctx.crate('tensor_store'))   # rollback copies the image back through restore_from_bytes: every key class must come back
